@@ -437,6 +437,12 @@ class AdaByronAddrDecoder(IAddrDecoder):
                                                        else b"")
         except cbor2.CBORDecodeError as ex:
             raise ValueError("Invalid CBOR encoding") from ex
+        except ValueError:
+            raise
+        # Besides its own decoding errors, cbor2 lets the exceptions of its tag handlers
+        # (e.g. TypeError) through for crafted input
+        except Exception as ex:
+            raise ValueError("Invalid CBOR encoding") from ex
 
 
 class AdaByronIcarusAddrEncoder(IAddrEncoder):
